@@ -135,7 +135,15 @@ def atoms(fn, ctx=None, cut=False):
                     continue
                 a = Atom()
                 a.fn, a.block, a.line = fn, bi, t.get("l")
-                a.term, a.neg = ("bin", "Eq", term, ("const", k, None, t.get("dt"))), False
+                # (a `match` arm naming a constant leaves only its value in the MIR: when exactly one constant of the crate has that
+                # value and type it is printed under that name, as the `==` spelling of the same test is)
+                nm = None
+                try:
+                    cands = [p_ for p_, c_ in fn.facts.consts.items() if c_.get("ty") == t.get("dt") and "v" in c_ and int(c_["v"]) == k] if k > 1 else []
+                    nm = cands[0] if len(cands) == 1 else None
+                except Exception:
+                    nm = None
+                a.term, a.neg = ("bin", "Eq", term, ("const", k, nm, t.get("dt"))), False
                 eq_t, ne_t = t["ts"][0][1], t["o"]
                 a.true_targets, a.false_targets = [eq_t], [ne_t]
                 a.true_fail, a.false_fail = cfg.fail_only(fn, eq_t), cfg.fail_only(fn, ne_t)
